@@ -426,7 +426,7 @@ func (g *gen) pickOtherDoc(file string) string {
 }
 
 func (g *gen) elementFile(kind, from string, depth int) string {
-	dirs := []string{"api", "api/sub", "shared", "api/el"}
+	dirs := []string{"api", "api/sub", "shared", "api/el", "api/défs"} // the last one: letters outside ASCII in a directory name
 	dir := rapid.SampledFrom(dirs).Draw(g.t, "eldir")
 	name := fmt.Sprintf("%s/el_%s%d.json", dir, kind, len(g.elems)+1)
 	if g.base != "" {
